@@ -26,8 +26,9 @@ LEVEL_TEXT = ("Every crash point of the cache update (before/after mkdir, after 
               "starting states over several trees, and every structural fault of a valid cache document (each key deleted, each value replaced "
               "by each other JSON kind, empty/whitespace/non-JSON, missing file or marker files) and pairs of faults interleaved with scans are "
               "materialised on disk; the next real scan must complete, produce exactly the fresh-scan report and leave a complete valid cache.")
-LEVEL_NOTE = ("Crash model: a write is cut after k bytes of the new content (file truncated on open, as Path.write_text does); no reordering between "
-              "files (they are written sequentially by one process). 'Wrong value type' = a different JSON kind. Deleting array elements or editing "
+LEVEL_NOTE = ("Crash model: the scan runs in a forked child; every file-system mutation below the tree (open for writing, mkdir, replace/rename, unlink) is an "
+              "operation; at the planned operation only the first k bytes reach the disk (or the call happens / does not happen) and the process dies with "
+              "os._exit - no exception handler, finally block or atexit hook runs. No reordering between operations (one sequential process). 'Wrong value type' = a different JSON kind. Deleting array elements or editing "
               "same-kind values under a valid checksum is outside the property (undetectable by the stated reuse rule).")
 
 TAG = "Signature: 8a477f597d28d172789f06886806bc55"
@@ -43,6 +44,8 @@ def trees():
     return {
         "empty": {"README.txt": "nothing to analyse\n"},
         "one": {"a.py": harness.py_function("alpha", 4)},
+        # non-ASCII names end up in the cache document as multi-byte characters: a write can be cut INSIDE one
+        "unicode": {"gr\u00f6\u00dfe.py": harness.py_function("gr\u00f6\u00dfe_\u65e5\u672c", 4)},
         "three": {"a.py": harness.py_function("alpha", 4), "d/b.py": harness.py_function("beta", 31), "d/c.js": harness.js_function("gamma", 5)},
         "many": many,
     }
@@ -75,47 +78,139 @@ def run_scan(root: Path):
         return harness.run_cli_function(scan_command, Path("."))
 
 
-class FaultyWrites:
-    """wraps Path.mkdir / Path.write_text; plan = (call index, k) or None -> record only"""
+class _Proxy:
+    """file opened for writing below the tree: collects what is written; at close either everything reaches the disk or - at the
+    planned crash point - only the first k bytes, after which the process dies without running any handler"""
 
-    def __init__(self, root: Path, plan=None):
-        self.root = str(root)
-        self.plan = plan
-        self.calls = []
+    def __init__(self, inj, path, mode, kw):
+        self.inj, self.path, self.mode, self.kw = inj, path, mode, kw
+        self.parts = []
+        self.closed = False
+        if "x" in mode and os.path.exists(path):
+            raise FileExistsError(17, "File exists", path)
+        self.idx = inj.register("write", path)
+
+    def write(self, data):
+        self.parts.append(data)
+        return len(data)
+
+    def writelines(self, lines):
+        for l in lines:
+            self.write(l)
+
+    def flush(self):
+        pass
 
     def __enter__(self):
-        self.real_mkdir, self.real_write = pathlib.Path.mkdir, pathlib.Path.write_text
-        me = self
-
-        def mkdir(p, *a, **kw):
-            if not str(p).startswith(me.root):
-                return me.real_mkdir(p, *a, **kw)
-            idx = len(me.calls)
-            me.calls.append(("mkdir", str(p)[len(me.root):], 1))
-            if me.plan and me.plan[0] == idx:
-                if me.plan[1] >= 1:
-                    me.real_mkdir(p, *a, **kw)
-                raise Crash()
-            return me.real_mkdir(p, *a, **kw)
-
-        def write_text(p, data, *a, **kw):
-            if not str(p).startswith(me.root):
-                return me.real_write(p, data, *a, **kw)
-            raw = data.encode("utf-8")
-            idx = len(me.calls)
-            me.calls.append(("write", str(p)[len(me.root):], len(raw)))
-            if me.plan and me.plan[0] == idx:
-                with open(p, "wb") as f:  # truncates, like write_text
-                    f.write(raw[: me.plan[1]])
-                raise Crash()
-            return me.real_write(p, data, *a, **kw)
-
-        pathlib.Path.mkdir, pathlib.Path.write_text = mkdir, write_text
         return self
 
     def __exit__(self, *exc):
-        pathlib.Path.mkdir, pathlib.Path.write_text = self.real_mkdir, self.real_write
+        self.close()
         return False
+
+    def close(self):
+        if self.closed:
+            return
+        self.closed = True
+        raw = b"".join(p if isinstance(p, bytes) else p.encode(self.kw.get("encoding") or "utf-8") for p in self.parts)
+        self.inj.sizes[self.idx] = len(raw)
+        real_mode = "ab" if "a" in self.mode else "wb"
+        k = self.inj.crash_at(self.idx)
+        with self.inj.real_open(self.path, real_mode) as f:
+            f.write(raw if k is None else raw[:k])
+            f.flush()
+            os.fsync(f.fileno())
+        if k is not None:
+            os._exit(77)
+
+
+class Injector:
+    """installed in a forked child: every file-system mutation below the tree is an operation; plan = (operation index, k)"""
+
+    def __init__(self, root, plan):
+        self.root = os.path.realpath(str(root))
+        self.plan = plan
+        self.ops = []
+        self.sizes = {}
+
+    def inside(self, path):
+        try:
+            return os.path.realpath(os.fspath(path)).startswith(self.root)
+        except TypeError:
+            return False
+
+    def register(self, kind, path):
+        self.ops.append([kind, os.path.realpath(os.fspath(path))[len(self.root):]])
+        return len(self.ops) - 1
+
+    def crash_at(self, idx):
+        return self.plan[1] if self.plan and self.plan[0] == idx else None
+
+    def install(self):
+        import builtins
+        import io
+
+        self.real_open = builtins.open
+        inj = self
+
+        def fake_open(file, mode="r", *a, **kw):
+            if not isinstance(file, int) and inj.inside(file) and any(c in mode for c in "wxa+"):
+                names = ("buffering", "encoding", "errors", "newline")
+                kw2 = dict(kw)
+                for n, v in zip(names, a):
+                    kw2[n] = v
+                return _Proxy(inj, os.fspath(file), mode, kw2)
+            return inj.real_open(file, mode, *a, **kw)
+
+        builtins.open = fake_open
+        io.open = fake_open
+
+        def wrap2(mod, name, kind):
+            real = getattr(mod, name)
+
+            def f(*a, **kw):
+                target = a[-1] if kind in ("replace", "rename") else a[0]
+                if not inj.inside(target):
+                    return real(*a, **kw)
+                idx = inj.register(kind, target)
+                k = inj.crash_at(idx)
+                if k == 0:
+                    os._exit(77)
+                r = real(*a, **kw)
+                if k is not None:
+                    os._exit(77)
+                return r
+
+            setattr(mod, name, f)
+
+        for name, kind in (("mkdir", "mkdir"), ("replace", "replace"), ("rename", "rename"), ("unlink", "unlink"), ("remove", "unlink"), ("rmdir", "rmdir")):
+            wrap2(os, name, kind)
+
+
+def scan_in_child(root: Path, plan, ops_file=None):
+    """fork; the child runs the real scan_command with the injector installed. returns the child's exit status (77 = died at the plan)"""
+    pid = os.fork()
+    if pid == 0:
+        try:
+            inj = Injector(root, plan)
+            inj.install()
+            from codelimit.commands.scan import scan_command
+
+            harness.reset_globals()
+            os.chdir(root)
+            with harness.captured():
+                try:
+                    scan_command(Path("."))
+                    status = 0
+                except BaseException:  # noqa
+                    status = 3
+            if ops_file:
+                with inj.real_open(ops_file, "w") as f:
+                    json.dump([op + [inj.sizes.get(i, 1)] for i, op in enumerate(inj.ops)], f)
+        finally:
+            os._exit(locals().get("status", 4))
+    _, st = os.waitpid(pid, 0)
+    return os.waitstatus_to_exitcode(st)
 
 
 def prepare(root: Path, tree_id: str, start: str):
@@ -172,33 +267,36 @@ def check_recovery(root: Path, sig, what):
 # ---------------------------------------------------------------------------------------
 
 def discover_calls(tree_id, start):
-    with harness.temp_tree() as root:
+    import tempfile
+
+    with harness.temp_tree() as root, tempfile.TemporaryDirectory() as side:
         prepare(root, tree_id, start)
-        with FaultyWrites(root) as fw:
-            code, out, exc = run_scan(root)
-        if exc is not None:
-            raise core.HarnessError(f"fault-free scan failed: {exc!r}")
-        return fw.calls
+        ops_file = os.path.join(side, "ops.json")
+        st = scan_in_child(root, None, ops_file)
+        if st != 0 or not os.path.exists(ops_file):
+            raise core.HarnessError(f"fault-free scan in a child failed (status {st})")
+        return [tuple(x) for x in json.load(open(ops_file))]
 
 
 def eval_crash(tree_id, start, idx, k):
     with harness.temp_tree() as root:
         prepare(root, tree_id, start)
-        crashed = False
-        try:
-            with FaultyWrites(root, (idx, k)) as fw:
-                with harness.cwd(root), harness.captured():
-                    from codelimit.commands.scan import scan_command
-
-                    harness.reset_globals()
-                    scan_command(Path("."))
-        except Crash:
-            crashed = True
-        if not crashed:
-            raise core.HarnessError(f"planned crash ({idx},{k}) was never reached; calls={fw.calls}")
-        call = fw.calls[idx]
+        st = scan_in_child(root, (idx, k))
+        if st != 77:
+            raise core.HarnessError(f"planned crash ({idx},{k}) was never reached (child status {st})")
+        calls = discover_calls_cached(tree_id, start)
+        call = calls[idx]
         sig = {"fault": "crash", "during": call[0] + ":" + os.path.basename(call[1])}
-        return check_recovery(root, sig, f"crash in call #{idx} {call[:2]} after {k} of {call[2]} bytes, start={start}")
+        return check_recovery(root, sig, f"process died in operation #{idx} {call[:2]} after {k} of {call[2]} bytes/steps, start={start}")
+
+
+_CALLS = {}
+
+
+def discover_calls_cached(tree_id, start):
+    if (tree_id, start) not in _CALLS:
+        _CALLS[(tree_id, start)] = discover_calls(tree_id, start)
+    return _CALLS[(tree_id, start)]
 
 
 # ---------------------------------------------------------------------------------------
@@ -359,7 +457,7 @@ REPRESENTATIVE = [
 
 
 def run(ctx: core.Ctx):
-    crash_trees = ctx.pick(["one"], ["empty", "one", "three", "many"])
+    crash_trees = ctx.pick(["one", "unicode"], ["empty", "one", "unicode", "three", "many"])
     starts = ctx.pick(["none", "valid"], ["none", "valid", "stale"])
     struct_trees = ctx.pick(["one"], ["one", "three"])
     ctx.bounds = {"crash_trees": crash_trees, "starting_states": starts, "structural_trees": struct_trees,
@@ -373,6 +471,7 @@ def run(ctx: core.Ctx):
         for st in starts:
             calls = discover_calls(t, st)
             ctx.bounds.setdefault("write_calls", {})[f"{t}/{st}"] = [[c[0], c[1], c[2]] for c in calls]
+            _CALLS[(t, st)] = calls
             for idx, (op, path, n) in enumerate(calls):
                 ks = list(range(0, n + 1)) if op == "write" else [0, 1]
                 crash_points += len(ks)
